@@ -23,6 +23,7 @@ DECIDED = [
     "R-C17-EMITTER-OWN: _repid_signal_emitter is stored only on wrapper objects created per instance, never on a class-level decorated "
     "function shared by all instances; brokers/consumers/processors take the emitter of their own connection",
     "R-C17-ISOLATE (signature): subscriber kwargs are filtered by the subscriber's own signature, not the asyncify wrapper's; R-C17-TABLE (names): every implementation of a wrapped operation keeps the declared parameter names",
+    "R-C17-PROTOCOL (wrapped only): the unwrapped _actor_run is referenced only where it is wrapped",
 ]
 NOT_DECIDED = ["subscriber slowness", "argument fidelity for exotic call styles as values"]
 ASSUMPTIONS = ["asyncio.create_task copies the current context: a ContextVar set inside the task does not leak to the caller"]
